@@ -39,7 +39,7 @@ Check (C04_rx_never_beyond_advertised : forall (S : nat -> Z -> Z) (F : nat -> o
   rx_reach S F s g -> ev_ok S F g s (EvSegment ip r) ->
   tcp_step cx s (EvSegment ip r) = Ok (s', out, tags) ->
   forall i, rb_len (s_rx_buffer s) + adv_width s <= i < rb_cap (s_rx_buffer s) ->
-            rb_cell (s_rx_buffer s') i = rb_cell (s_rx_buffer s) i).
+            znth (rb_store (s_rx_buffer s')) (rb_get_idx (s_rx_buffer s) i) = rb_cell (s_rx_buffer s) i).
 
 Check (C04_ack_never_ahead : forall (S : nat -> Z -> Z) (F : nat -> option Z),
   (forall e f, F e = Some f -> 0 <= f) ->
